@@ -706,15 +706,13 @@ theorem perturb_member (d : Dom) (hwf : d.wfb = true) (hnum : d.isNumerical = tr
       simp only [Dom.wfb, decide_eq_true_eq] at hwf
       have hwf' : (lo : Rat) ≤ (hi : Rat) := by exact_mod_cast hwf
       split at h
-      · split at h
-        · rename_i hb
-          simp only [Dom.bounds] at hb
-          simp only [Dom.cast] at h
-          injection h with h; subst h
-          have h1 : lo < 0 := by exact_mod_cast hb.1
-          have h2 : 0 < hi := by exact_mod_cast hb.2
-          simp [Dom.member]; omega
-        · cases h
+      · rename_i hb
+        simp only [Dom.bounds] at hb
+        simp only [Dom.cast] at h
+        injection h with h; subst h
+        have h1 : lo ≤ 0 := by exact_mod_cast hb.2.1
+        have h2 : 0 ≤ hi := by exact_mod_cast hb.2.2
+        simp [Dom.member, h1, h2]
       · simp only [Dom.cast, Dom.bounds] at h
         injection h with h; subst h
         have := clipRat_mem (x * mult) lo hi hwf'
@@ -723,13 +721,11 @@ theorem perturb_member (d : Dom) (hwf : d.wfb = true) (hnum : d.isNumerical = tr
     | float lo hi l g =>
       simp only [Dom.wfb, decide_eq_true_eq] at hwf
       split at h
-      · split at h
-        · rename_i hb
-          simp only [Dom.bounds] at hb
-          simp only [Dom.cast] at h
-          injection h with h; subst h
-          simp [Dom.member, le_of_lt hb.1, le_of_lt hb.2]
-        · cases h
+      · rename_i hb
+        simp only [Dom.bounds] at hb
+        simp only [Dom.cast] at h
+        injection h with h; subst h
+        simp [Dom.member, hb.2.1, hb.2.2]
       · simp only [Dom.cast, Dom.bounds, Val.num?] at h
         injection h with h; subst h
         have := clipRat_mem (x * mult) lo hi hwf
@@ -745,9 +741,7 @@ theorem perturb_member (d : Dom) (hwf : d.wfb = true) (hnum : d.isNumerical = tr
             injection hc with hc; subst hc; exact getElem?_mem_val hcc
           · cases hc
       split at h
-      · split at h
-        · simp [Dom.member, key _ w h]
-        · cases h
+      · simp [Dom.member, key _ w h]
       · simp [Dom.member, key _ w h]
 
 /-- result of the explore loop, entry by entry: the key of the space, and a value that is a
